@@ -72,6 +72,10 @@ def gen_scenario(rng, frontend):
         # MustBeFresh is a request to the network: the consumer side takes whatever Data comes back (the scripted Data carry no
         # FreshnessPeriod, or 0, or a positive one)
         ints[-1]['mbf'] = rng.random() < 0.3
+        if rng.random() < 0.07:
+            ints[-1]['omit_lifetime'] = True
+            ints[-1]['L'] = L = 100 if frontend == 'v1' else 4000
+            ints[-1]['aw'] = 0
         if dig is None and not ints[-1]['placeholder'] and rng.random() < 0.06:
             ints[-1]['signed_np'] = True      # a signer but no ApplicationParameters: the digest component is appended all the same
     # candidate times: every deadline -1/0/+1, every express time, claim+latency points
@@ -92,7 +96,7 @@ def gen_scenario(rng, frontend):
             events.append({'t': t, 'kind': 'cancel', 'i': rng.randrange(ni)})
         else:
             # the application shuts the face down, or the face goes down by itself (connection lost): Face.run() returns
-            events.append({'t': t, 'kind': 'shutdown', 'by': rng.choice(['app', 'face'])})
+            events.append({'t': t, 'kind': 'shutdown', 'by': rng.choice(['app', 'face', 'task'])})
     for it in ints:
         if (it['placeholder'] or it.get('signed_np')) and rng.random() < 0.8:
             events.append({'t': it['te'] + rng.choice([1, 5, it['L'] - 1]), 'kind': 'dataf', 'i': it['id']})
@@ -396,6 +400,8 @@ def execute(sc):
             nm = list(NAMES[it['name']]) if probe_name is None else list(probe_name)
             kwargs = {}
             app_param = None
+            # an Interest without InterestLifetime (lifetime=None): the front-end's own default applies
+            LT = None if (it.get('omit_lifetime') and lifetime is None) else (lifetime or it['L'])
             if it.get('placeholder'):
                 nm = nm[:1] + [rc.comp(2, bytes(32))] + nm[1:]
                 app_param = b'p'
@@ -407,15 +413,15 @@ def execute(sc):
             if it.get('signed_np'):
                 if fe == 'v2':
                     coro = the_app.express(nm, make_validator(it), signer=DigestSha256Signer(for_interest=True),
-                                           lifetime=lifetime or it['L'], can_be_prefix=it['cbp'], must_be_fresh=it.get('mbf', False), nonce=1000 + it['id'])
+                                           lifetime=LT, can_be_prefix=it['cbp'], must_be_fresh=it.get('mbf', False), nonce=1000 + it['id'])
                 else:
                     coro = the_app.express_interest(nm, validator=make_validator(it), signer=DigestSha256Signer(for_interest=True),
-                                                    lifetime=lifetime or it['L'], can_be_prefix=it['cbp'], must_be_fresh=it.get('mbf', False), nonce=1000 + it['id'])
+                                                    lifetime=LT, can_be_prefix=it['cbp'], must_be_fresh=it.get('mbf', False), nonce=1000 + it['id'])
             elif sc.get('shared_param') and app_param is None:
                 # legal API form: one InterestParam object reused (and modified) by the caller for every Interest
                 shared.can_be_prefix = it['cbp']
                 shared.must_be_fresh = it.get('mbf', False)
-                shared.lifetime = lifetime or it['L']
+                shared.lifetime = LT
                 shared.nonce = 1000 + it['id']
                 if fe == 'v2':
                     coro = the_app.express(nm, make_validator(it), interest_param=shared)
@@ -424,12 +430,12 @@ def execute(sc):
             elif fe == 'v2':
                 coro = the_app.express(nm, make_validator(it), app_param=app_param,
                                        signer=DigestSha256Signer(for_interest=True) if app_param is not None else None,
-                                       lifetime=lifetime or it['L'], can_be_prefix=it['cbp'], must_be_fresh=it.get('mbf', False), nonce=1000 + it['id'])
+                                       lifetime=LT, can_be_prefix=it['cbp'], must_be_fresh=it.get('mbf', False), nonce=1000 + it['id'])
             else:
                 if app_param is not None:
                     kwargs['signer'] = DigestSha256Signer(for_interest=True)
                 coro = the_app.express_interest(nm, app_param=app_param, validator=make_validator(it),
-                                                lifetime=lifetime or it['L'], can_be_prefix=it['cbp'], must_be_fresh=it.get('mbf', False), nonce=1000 + it['id'],
+                                                lifetime=LT, can_be_prefix=it['cbp'], must_be_fresh=it.get('mbf', False), nonce=1000 + it['id'],
                                                 **kwargs)
             R.int_wires[it['id']] = face.sent[n0][1] if len(face.sent) > n0 else None
             return coro
@@ -485,6 +491,9 @@ def execute(sc):
             elif k == 'shutdown':
                 if e.get('by') == 'face':
                     face.shutdown()          # the transport ends on its own; nobody calls NDNApp.shutdown()
+                elif e.get('by') == 'task':
+                    main_task.cancel()       # an embedding program cancels the task that runs main_loop()
+                    R.main_task_cancelled = True
                 else:
                     the_app.shutdown()
                 shutdown = True
@@ -538,6 +547,10 @@ def execute(sc):
             the_app.shutdown()
         try:
             await asyncio.wait_for(main_task, 5)
+        except asyncio.CancelledError:
+            if not getattr(R, 'main_task_cancelled', False):
+                raise
+            # main_loop may end normally or pass the cancellation on - either way it has ended
         except Exception as ex:   # noqa
             R.main_loop_error = ex
         R.sent = list(face.sent)
@@ -571,6 +584,15 @@ def judge(ctx, sc, R, S):
         exp = model_outcomes(sc, it)
         if exp == {('never-expressed', None, None)}:
             continue
+        if it.get('omit_lifetime'):
+            ctx.event('interest-without-lifetime')
+            if fe == 'v1':
+                # the legacy front-end gives up after 100 ms; the protocol's default InterestLifetime (4000 ms) would be as right
+                import copy as _copy
+                sc2 = _copy.deepcopy(sc)
+                it2 = next(x for x in sc2['ints'] if x['id'] == it['id'])
+                it2['L'] = 4000
+                exp = set(exp) | set(model_outcomes(sc2, it2))
         got = R.obs.get(it['id'])
         if got is None:
             got = ('open', None, None)
@@ -684,8 +706,9 @@ def template_scenarios(rng, fe):
                                               [{'id': 0, 'name': 'abc'}], [{'t': d, 'kind': 'data', 'd': 0}])))
     # T6: shutdown with pending and validating Interests (by the application / the face going down by itself)
     out.append(('shutdown-mixed', sc([I(0, 'ab', L=L * 4, lat=L * 2), I(1, 'ad', L=L * 4), I(2, 'a', L=L * 4, cbp=True)], [{'id': 0, 'name': 'ab'}],
-                                     [{'t': d, 'kind': 'data', 'd': 0}, {'t': d + 5, 'kind': 'shutdown', 'by': rng.choice(['app', 'face'])}])))
+                                     [{'t': d, 'kind': 'data', 'd': 0}, {'t': d + 5, 'kind': 'shutdown', 'by': rng.choice(['app', 'face', 'task'])}])))
     out.append(('face-lost', sc([I(0, 'ab', L=L * 4), I(1, 'ad', L=L * 6), I(2, 'ab', L=L * 5)], [{'id': 0, 'name': 'ab'}], [{'t': d, 'kind': 'shutdown', 'by': 'face'}])))
+    out.append(('main-task-cancelled', sc([I(0, 'ab', L=L * 4), I(1, 'ad', L=L * 6), I(2, 'ab', L=L * 5)], [{'id': 0, 'name': 'ab'}], [{'t': d, 'kind': 'shutdown', 'by': 'task'}])))
     # T10: the returned coroutine is first awaited after the lifetime is over: what arrived in time still counts
     late = L + rng.choice([1, 5, 60])
     out.append(('late-await-data', sc([I(0, 'ab', L=L, aw=late), I(1, 'ab', L=L)], [{'id': 0, 'name': 'ab'}], [{'t': d, 'kind': 'data', 'd': 0}])))
